@@ -30,27 +30,37 @@ func (s *zzStream) Recv() (*Envelope, error) {
 	return nil, zzEOS
 }
 
-// zzPayload is what the stub deserializer produces: it names the type it was
-// asked to decode and the message it was decoded from.
-type zzPayload struct {
-	tname string
-	j     int
-}
+// The reader harness runs the production configuration: the real ProtoSerializer (protobuf runtime model under
+// the executor, the real runtime natively) and type names of the module's own messages. The payload bytes
+// 0a 01 <j> decode under both types used here: as TestMessage{Data: [j]} and as actor.PID{Address: string(j)},
+// so the decoded value tells which type the reader decoded message j as.
+const (
+	zzTyA = "remote.TestMessage"
+	zzTyB = "actor.PID"
+	zzTyU = "unknown.Type"
+)
 
-type zzDeser struct{}
+func zzData(j int) []byte { return []byte{0x0a, 0x01, byte(j)} }
 
-func (zzDeser) Deserialize(data []byte, tname string) (any, error) {
-	if tname == "unknown" {
-		return nil, errors.New("zz unknown type")
+func zzDecoded(msg any) (tname string, j int, ok bool) {
+	switch m := msg.(type) {
+	case *TestMessage:
+		if len(m.Data) == 1 {
+			return zzTyA, int(m.Data[0]), true
+		}
+	case *actor.PID:
+		if len(m.Address) == 1 && m.ID == "" {
+			return zzTyB, int(m.Address[0]), true
+		}
 	}
-	return zzPayload{tname: tname, j: int(data[0])}, nil
+	return "", 0, false
 }
 
 func ZZ_C16_Reader() {
 	M := zzrt.Param("M")
 	ze := actor.ZZNewEngine("node:1")
 	procs := []*actor.ZZRecProc{ze.Register("t/0"), ze.Register("t/1")}
-	r := &streamReader{remote: &Remote{engine: ze.E}, deserializer: zzDeser{}}
+	r := &streamReader{remote: &Remote{engine: ze.E}, deserializer: ProtoSerializer{}}
 	// the node's own infrastructure actors are registered under well-known ids too: a stream writer towards some
 	// other peer (a real streamWriter with its real inbox; it is never dialled here) - a peer may address it
 	sw := newStreamWriter(ze.E, actor.NewPID("node:1", "router/zz"), "node:9", nil, 0).(*streamWriter)
@@ -61,16 +71,16 @@ func ZZ_C16_Reader() {
 	// the stream has already carried a well-formed envelope (two messages of two types to t/0): whatever the
 	// reader keeps between envelopes is in place when the arbitrary one arrives
 	pre := &Envelope{
-		TypeNames: []string{"ty.B", "ty.A"},
+		TypeNames: []string{zzTyB, zzTyA},
 		Targets:   []*actor.PID{actor.NewPID("node:1", "t/0")},
 		Senders:   []*actor.PID{actor.NewPID("node:2", "s/pre")},
 		Messages: []*Message{
-			{Data: []byte{200}, TargetIndex: 0, SenderIndex: 0, TypeNameIndex: 0},
-			{Data: []byte{201}, TargetIndex: 0, SenderIndex: 0, TypeNameIndex: 1},
+			{Data: zzData(100), TargetIndex: 0, SenderIndex: 0, TypeNameIndex: 0},
+			{Data: zzData(101), TargetIndex: 0, SenderIndex: 0, TypeNameIndex: 1},
 		},
 	}
 	env := &Envelope{}
-	typePool := []string{"ty.A", "ty.B", "unknown"}
+	typePool := []string{zzTyA, zzTyB, zzTyU}
 	nT := zzrt.Choose(3)
 	for i := 0; i < nT; i++ {
 		env.TypeNames = append(env.TypeNames, typePool[zzrt.Choose(len(typePool))])
@@ -88,7 +98,7 @@ func ZZ_C16_Reader() {
 	nM := zzrt.Choose(M) + 1
 	for j := 0; j < nM; j++ {
 		env.Messages = append(env.Messages, &Message{
-			Data:          []byte{byte(j)},
+			Data:          zzData(j),
 			TargetIndex:   zzrt.NondetInt32("targetIndex"),
 			SenderIndex:   zzrt.NondetInt32("senderIndex"),
 			TypeNameIndex: zzrt.NondetInt32("typeNameIndex"),
@@ -110,15 +120,20 @@ func ZZ_C16_Reader() {
 	seen := map[int]bool{}
 	for k, p := range procs {
 		for _, g := range p.Got {
-			pl, ok := g.Msg.(zzPayload)
+			var pl struct {
+				tname string
+				j     int
+			}
+			var ok bool
+			pl.tname, pl.j, ok = zzDecoded(g.Msg)
 			zzrt.Assert(ok, "C16:delivered-something-not-decoded")
 			if !ok {
 				continue
 			}
-			if pl.j >= 200 {
+			if pl.j >= 100 {
 				// the earlier, well-formed envelope
-				zzrt.Assert(pl.j <= 201 && !seen[pl.j] && k == 0 && g.To == pre.Targets[0] && g.Sender == pre.Senders[0] &&
-					pl.tname == pre.TypeNames[pl.j-200], "C16:well-formed-envelope-misdelivered")
+				zzrt.Assert(pl.j <= 101 && !seen[pl.j] && k == 0 && g.To == pre.Targets[0] && g.Sender == pre.Senders[0] &&
+					pl.tname == pre.TypeNames[pl.j-100], "C16:well-formed-envelope-misdelivered")
 				seen[pl.j] = true
 				continue
 			}
@@ -142,7 +157,7 @@ func ZZ_C16_Reader() {
 			zzrt.Reach("delivered")
 		}
 	}
-	zzrt.Assert(seen[200] && seen[201], "C16:well-formed-envelope-not-delivered")
+	zzrt.Assert(seen[100] && seen[101], "C16:well-formed-envelope-not-delivered")
 }
 
 // ZZ_C16_Bytes: whatever bytes a peer sends. The real Envelope.UnmarshalVT
